@@ -45,6 +45,14 @@ func DecodeBinaryHeader(data string) ([]byte, error) {
 	return base64.StdEncoding.DecodeString(data)
 }
 
+// setHeaders assigns every key of from in into, replacing what into holds
+// under that key: unlike mergeHeaders it may be repeated.
+func setHeaders(into, from http.Header) {
+	for k, vals := range from {
+		into[k] = append([]string(nil), vals...)
+	}
+}
+
 func mergeHeaders(into, from http.Header) {
 	for k, vals := range from {
 		into[k] = append(into[k], vals...)
